@@ -68,6 +68,9 @@ func stress(args []string) {
 		for j := range want {
 			if !corr.DefaultAccept(want[j], res.Outs[j]) {
 				dis++
+				if dis <= 3 {
+					fmt.Printf("DISAGREE line %d `%s`: impl=%s\n   oracle=%s\n   run=%s\n", j, lines[j], res.Outs[j], want[j], strings.Join(res.Outs, " | "))
+				}
 				break
 			}
 		}
